@@ -2,7 +2,7 @@
 history runner on the implementation, canonical observations.
 
 A program AST is a nested list mirroring the protocol grammar of lean/Driver/GFID.lean:
-  ["dist", d] | ["static", body] | ["vmap", p, [bools]] | ["scan", p, n|"none"] |
+  ["dist", d] | ["static", body] | ["vmap", p, [False | True | "ax1"]] | ["scan", p, n|"none"] |
   ["switch", p...] | ["mask", p] | ["dimap", pre, p, post] | ["repeat", p, n] | ["orelse", p, q] |
   ["map", p, f] | ["contramap", [exprs], p] | ["accumulate", p] | ["reduce", p] |
   ["iterate", p, n] | ["iterate_final", p, n] | ["masked_iterate", p] | ["masked_iterate_final", p]
@@ -138,7 +138,7 @@ def build(p):
 
         return genjax.gen(fn)
     if op == "vmap":
-        axes = tuple(0 if a else None for a in p[2])
+        axes = tuple((1 if a == "ax1" else 0) if a else None for a in p[2])
         return build(p[1]).vmap(in_axes=axes)
     if op == "scan":
         return build(p[1]).scan(n=None if p[2] == "none" else p[2])
